@@ -86,6 +86,8 @@ COLLISIONS = {
     "re-exported declaration is a prefix of its package name": {"scales/__init__.py": "from ._impl import scale, Sc\n", "scales/_impl.py": "def scale(a: int) -> int:\n    return a\n\n\nclass Sc:\n    def m(self) -> int:\n        return 1\n", "scales/deep/__init__.py": "", "scales/deep/detail.py": "def d() -> int:\n    return 1\n"},
     "re-exported class named like an ancestor package": {"Outer/__init__.py": "", "Outer/inner/__init__.py": "from ._m import Outer\n", "Outer/inner/_m.py": "class Outer:\n    def m(self) -> int:\n        return 1\n"},
     "module named like its package": {"same/__init__.py": "", "same/same.py": "def same() -> int:\n    return 1\n\n\nclass Same:\n    pass\n"},
+    "enum of a sibling module used as a type": {"c8/__init__.py": "", "c8/colors.py": "from enum import Enum\n\n\nclass Color(Enum):\n    RED = 1\n\n\ndef mix(a: int) -> int:\n    return a\n", "c8/paint.py": "from vpkg.c8.colors import Color\n\n\ndef paint(c: Color) -> Color:\n    return c\n"},
+    "class of a sibling module used as a type": {"c9/__init__.py": "", "c9/shapes.py": "class Shape:\n    def area(self) -> int:\n        return 1\n\n\ndef mk() -> Shape:\n    return Shape()\n", "c9/draw.py": "from vpkg.c9.shapes import Shape\n\n\ndef draw(c: Shape) -> Shape:\n    return c\n"},
     "same class re-exported by two packages": {"c7/__init__.py": "from .p1._i import K\n", "c7/p1/__init__.py": "from ._i import K\n", "c7/p1/_i.py": "class K:\n    def k(self) -> int:\n        return 1\n"},
 }
 
@@ -93,7 +95,7 @@ COLLISIONS = {
 def run(rep: Report, tier: str, seed: int) -> None:
     specs = enumerate_trees(tier)
     rep.rule = (
-        "C03 trees (packed 120 per run) x naming conversion off/on, every output file checked; 11 inputs built to collide or to confuse the path computation (two stub texts for one path, declarations named like / prefix of the re-exporting package, class named like an ancestor package, module named like its package);"
+        "C03 trees (packed 120 per run) x naming conversion off/on, every output file checked; 13 inputs built to collide or to confuse the path computation (two stub texts for one path, declarations named like / prefix of the re-exporting package, class named like an ancestor package, module named like its package);"
         " console-script runs over 8 spellings of source/output path (absolute, relative, trailing slash, '..', pre-existing output, output inside source's parent, source given as parent directory); distinct = distinct (tree/input label, options)"
     )
     spec_by_tid = {s.tid: s for s in specs}
